@@ -3,7 +3,7 @@ import core
 LEVEL = 'exploration'
 RULE = ('exactness: every instruction of every pclntab function of the listed Go binaries is decoded by goom\'s x86 decoder and by '
         'upstream golang.org/x/arch/x86asm in lock-step and compared (Len, mnemonic, PCRel, PCRelOff); totality: random byte strings of '
-        'length 1-16 and bit-mutated real instruction starts are decoded under recover and checked structurally; the entry point goom itself uses, bytecode.ParseIns, on the first n bytes of real functions given as slices with capacity far beyond their length (never beyond the supplied bytes, same answer as for a private copy); '
+        'length 1-16 and bit-mutated real instruction starts are decoded under recover and checked structurally; the entry point goom itself uses, bytecode.ParseIns, on the first n bytes of real functions given as slices with capacity far beyond their length (never beyond the supplied bytes, same answer as for a private copy); goom's extent scan bytecode.GetFuncSize over 4000 functions of the running binary against the same scan made with the reference decoder; '
         'distinct = distinct mnemonics on which both decoders agreed')
 
 
@@ -14,6 +14,7 @@ def run(ctx):
     files.update(core.dir_files('harness/c16', 'zzverif/c16'))
     b = ctx.build('c16', core.MODPATH + '/zzverif/c16', files, gcflags='')
     ctx.children(b, 1, run='TestC16$', timeout=3000 if ctx.thorough else 600)
+    ctx.children(b, 1, run='TestC16FuncSize', timeout=600, env={'VERIF_C16_SIZEFUNCS': '4000' if not ctx.thorough else '200000'}, what='TestC16FuncSize')
     ctx.children(b, 1, run='TestC16ParseIns', timeout=600, env={'VERIF_C16_PARSEFUNCS': '3000' if not ctx.thorough else '60000'}, what='TestC16ParseIns')
     ctx.assumptions += ['reference = golang.org/x/arch/x86/x86asm as vendored in GOROOT/src/cmd (go1.23.5)',
                         'instructions the reference cannot decode (VEX/EVEX in hand-written assembly) have no oracle: the walk of that function stops there (counted in functions_cut_short_no_oracle)']
